@@ -31,29 +31,38 @@ Fixpoint nequiv (a b : node) : bool :=
   | _, _ => false
   end.
 
-Definition guard_class (c : case) : N :=
+(* fx = the tree the implementation under test is (Model/C17Subcmd.v `variant`): the guard of a
+   finding exists only while its fix is not in the tree *)
+Definition guard_class (fx : variant) (c : case) : N :=
   let p := c_parser c in
   let fuel := fuel_of p in
-  match c_obs c with
-  | Some cfg => if negb (dest_truthy p cfg) then 1%N
-                else if negb (input_consistent fuel p (c_input c)) then 2%N else 0%N
-  | None => if negb (input_consistent fuel p (c_input c)) then 2%N else 0%N
-  end.
+  let falsy := negb (fx_falsy fx) && match c_obs c with Some cfg => negb (dest_truthy p cfg) | None => false end in
+  if falsy then 1%N
+  else if negb (fx_cfg fx) && negb (input_consistent fuel p (c_input c)) then 2%N else 0%N.
 
-Definition judge1 (c : case) : verdict :=
+Definition judge1_v (fx : variant) (c : case) : verdict :=
   let p := c_parser c in
   let fuel := fuel_of p in
   {| v_model := wf_b fuel p     (* the case satisfies the hypothesis wf of the theorems *)
-                && match parse fuel p (c_input c), c_obs c with
+                && match parse fx fuel p (c_input c), c_obs c with
                    | Ok m, Some o => nequiv (strip (NNs m)) (NNs o)
                    | Err OutOfFuel, _ => false
                    | Err _, None => true
                    | _, _ => false
                    end;
-     v_class := guard_class c;
+     v_class := guard_class fx c;
      v_spec := match c_obs c with
                | None => true        (* the property constrains successful parses *)
                | Some cfg => spec_ok fuel p (top_level (c_input c)) cfg
                end |}.
 
+(* the pinned tree *)
+Definition judge1 := judge1_v orig.
 Definition judge (cs : list case) := judge_all judge1 cs.
+
+(* after fixes/C17-falsy-subcommand-name-keeps-all-sections.patch: no class 1, theorem C17_fixed_one_selected *)
+Definition judge_fixed_falsy (cs : list case) := judge_all (judge1_v {| fx_falsy := true; fx_cfg := false |}) cs.
+(* after fixes/C17-cfg-naming-other-subcommand-drops-settings.patch: no class 2 *)
+Definition judge_fixed_cfg (cs : list case) := judge_all (judge1_v {| fx_falsy := false; fx_cfg := true |}) cs.
+(* after both: no finding class left, any recurrence is a VIOLATION *)
+Definition judge_fixed_both (cs : list case) := judge_all (judge1_v {| fx_falsy := true; fx_cfg := true |}) cs.
